@@ -730,7 +730,9 @@ func (w *world) relay(req *pairingtypes.RelayRequest) (res callResult) {
 			res = callResult{Panicked: true, Err: fmt.Sprint("panic: ", r)}
 		}
 	}()
-	reply, err := w.server.Relay(ctx, req)
+	// the provider owns (and rewrites, e.g. RelayData.RequestBlock) the request object it is handed, as
+	// with a freshly deserialised gRPC message: always hand it a private copy
+	reply, err := w.server.Relay(ctx, cloneReq(req))
 	if err != nil {
 		return callResult{Err: err.Error()}
 	}
